@@ -15,7 +15,8 @@ theorem escAll_append (a b : List Nat) : escAll (a ++ b) = escAll a ++ escAll b 
   | nil => rfl
   | cons x t ih => simp [escAll, ih]
 
-theorem decodeBody_type {ds now : Nat} {body : List Nat} {m : Msg} (h : decodeBody ds now body = some m) :
+theorem decodeBody_type {ds now : Nat} {loc : Bool} {body : List Nat} {m : Msg}
+    (h : decodeBody ds now loc body = some m) :
     body.getD 0 0 ≠ 0x10 := by
   unfold decodeBody at h
   intro h0
@@ -64,9 +65,9 @@ theorem ghost_step (c : Cfg) {hist : List Nat} {s s' : RState} {b : Nat} {k : Bo
     (hg : Ghost hist s) (h : RInv s) (hstep : readerStep c true s b = .ok (s', k, r)) :
     Ghost (hist ++ [b]) s' ∧
     (∀ m, r = some m → ∃ pre body, hist ++ [b] = pre ++ [0x10, 0x02] ++ escAll body ++ [0x10, 0x03] ∧
-      decodeBody c.defaultSource c.now body = some m) := by
+      decodeBody c.defaultSource c.now c.stampLocal body = some m) := by
   have hrep : ∀ m, r = some m → ∃ pre body, hist ++ [b] = pre ++ [0x10, 0x02] ++ escAll body ++ [0x10, 0x03] ∧
-      decodeBody c.defaultSource c.now body = some m := by
+      decodeBody c.defaultSource c.now c.stampLocal body = some m := by
     -- the report
     obtain ⟨s2, k2, r2, h2, _, hrep, _⟩ := step_total c true b h
     rw [hstep] at h2
